@@ -56,12 +56,18 @@ theorem G5_kernel_interface :
     Gen.Udp.sockopts.all (fun x => [("SOL_SOCKET", "SO_RCVBUF"), ("SOL_SOCKET", "SO_SNDBUF"), ("IPPROTO_IPV6", "IPV6_V6ONLY")].contains x.2) = true ∧
     Gen.Udp.socketTypes.all (fun x => x.2 == "SOCK_DGRAM | SOCK_NONBLOCK | SOCK_CLOEXEC") = true := by decide
 
-/-- **G6.** Address canonicalisation (the model identifies the index key with the socket address): `key()` is the numeric host,
-`':'`, the numeric service of the WHOLE address for both families; `addressFromSockaddr` reports numeric host and port; a ServerPeer
-session stores the whole source/target `sockaddr` it later sends to. -/
+/-- **G6.** Address canonicalisation, as far as the SOURCE decides it: `key()` is the numeric host, `':'`, the numeric service of the
+WHOLE address for both families; its two buffers are declared large enough for every numeric form (`NI_MAXHOST`/`NI_MAXSERV`, or
+constants ≥ 63 / ≥ 6 — `INET_ADDRSTRLEN` is not: a v4-mapped or long IPv6 host would overflow it, getnameinfo would fail and `key()`
+return `""`), and exactly their `sizeof` is what getnameinfo is told; a getnameinfo failure yields the empty string and BOTH users of
+`key()` refuse an empty key before touching `_peerIndex` (`readFromListener`: report + drop; `viaDo`: close the id) — so distinct
+peers can never share the empty key; `addressFromSockaddr` reports numeric host and port; a ServerPeer session stores the whole
+source/target `sockaddr` it later sends to. What is NOT decided by the source — that getnameinfo's numeric output is injective — is
+the hypothesis `KeyInjective` of the theorems below. -/
 theorem G6_address_key :
-    Gen.Udp.keyIsNumericHostColonPort = true ∧ Gen.Udp.addressFromSockaddrIsHostAndPort = true ∧
-    Gen.Udp.sessionKeepsWholePeerAddress = true := by decide
+    Gen.Udp.keyIsNumericHostColonPort = true ∧ Gen.Udp.keyBuffersHoldEveryNumericForm = true ∧ Gen.Udp.keyFailureReturnsEmpty = true ∧
+    Gen.Udp.emptyKeyRefusedOnReceive = true ∧ Gen.Udp.emptyKeyRefusedOnVia = true ∧
+    Gen.Udp.addressFromSockaddrIsHostAndPort = true ∧ Gen.Udp.sessionKeepsWholePeerAddress = true := by decide
 
 /-- **G7.** Session and listener ids come from `std::atomic` counters starting at 1, and `_nextSessionId++` is the initialiser of the
 id in exactly `connect()`, `connectViaListener()` (caller threads) and `readFromListener` (I/O thread) — the model's `nextSid`. -/
@@ -105,11 +111,30 @@ example : (run defaultCfg [.connect 5 false, .cmdSend 1 [3] .eagain, .writableC 
 
 /-! ## T2 — every received datagram is exactly one data event, whole, on a session of its sender -/
 
-/-- **T2 (invariant).** In every reachable state each peer-index entry points to an OPEN ServerPeer session whose peer is that
-very address, and session ids are never reused. (This is what "not delivered on a session belonging to a different peer" rests on.) -/
+/-- **The assumption about `key()`.** `Cfg.key` is the engine's `key()` (getnameinfo's numeric host ':' service): the model does NOT
+assume it injective. `KeyInjective cfg.key` — distinct socket addresses have distinct index keys — is an explicit hypothesis of
+exactly the theorems that claim "on a session of THAT peer" (`T2_one_datagram`, `T2_burst`, `T3_next_datagram`, `T3_trace`).
+What the code itself guarantees is pinned by `G6_address_key` (shape, buffer sizes large enough for every numeric form, an empty
+key is refused); what the kernel/libc function does is exercised, not proved: harness peers 127.0.0.1:p / 127.0.0.2:p / [::1]:p and,
+on a dual-stack listener, `::ffff:127.0.0.1:p` / `::ffff:127.0.0.2:p` (corpus `m3-…`, `c06c-long-numeric-hosts-dual-stack`, category
+`dual`), with an independent monitor comparing every live session's `pkey` with the harness's own inet_ntop formatting. -/
+example : KeyInjective defaultCfg.key := fun _ _ h => h
+
+/-- **Why the hypothesis is needed (seed C06-c).** With a `key()` that maps two different addresses to one key (there: every numeric
+host of 16+ characters → `""`), the second peer gets NO accept and its datagram is delivered on the FIRST peer's session. -/
+theorem T2_refuted_without_injective_key :
+    ∃ (cfg : Cfg) (h : List In) (lid a : Nat) (dg : Bytes) (sid : Nat), dg ≠ [] ∧ dg.length ≤ maxDatagram ∧ maxDatagram ≤ cfg.ioReadChunk ∧
+      capReached cfg (run cfg h).1 = false ∧
+      (recvOne cfg lid (run cfg h).1 (a, dg)).2 = [.data sid dg] ∧          -- no accept, delivered on `sid` …
+      ((recvOne cfg lid (run cfg h).1 (a, dg)).1.sessions sid).map (·.peer) ≠ some a :=   -- … which is another peer's session
+  ⟨{ key := fun _ => 0 }, [.listen false, .recvFrom 1 [(7, [1])]], 1, 8, [2], 1, by decide, by decide, by decide, by decide, by decide,
+   by decide⟩
+
+/-- **T2 (invariant).** In every reachable state each peer-index entry points to an OPEN ServerPeer session whose peer has exactly
+that index key, and session ids are never reused. (This is what "not delivered on a session belonging to a different peer" rests on.) -/
 theorem T2_index_sound (cfg : Cfg) (h : List In) :
-    (∀ a sid, (run cfg h).1.peerIndex a = some sid →
-        ∃ s, (run cfg h).1.sessions sid = some s ∧ s.peer = a ∧ s.role = .serverPeer) ∧
+    (∀ k sid, (run cfg h).1.peerIndex k = some sid →
+        ∃ s, (run cfg h).1.sessions sid = some s ∧ cfg.key s.peer = k ∧ s.role = .serverPeer) ∧
     (∀ sid s, (run cfg h).1.sessions sid = some s → sid < (run cfg h).1.nextSid) :=
   ⟨(run_inv cfg h).idx, (run_inv cfg h).fresh⟩
 
@@ -159,6 +184,11 @@ theorem T2_nextSid_monotone (cfg : Cfg) (tok : Nat) (st : State) (i : In) : st.n
       · split
         · rw [hcli]; exact Nat.le_refl _
         · exact Nat.le_refl _
+  | recvKeyFail lid n =>
+    simp only [step]; split
+    · exact Nat.le_refl _
+    · split <;> exact Nat.le_refl _
+  | viaKeyFail lid => exact Nat.le_succ _
   | connect a v6 => exact Nat.le_succ _
   | via lid a v6 =>
     simp only [step, viaDo]
@@ -234,14 +264,33 @@ theorem T2_nextSid_monotone (cfg : Cfg) (tok : Nat) (st : State) (i : In) : st.n
 /-- **T2 (one datagram).** After ANY history, a datagram of 1…65507 bytes from `a` that the session cap does not refuse (no cap by
 default) produces exactly one data event with exactly its bytes — never merged, split, truncated or duplicated — on a ServerPeer
 session whose peer is `a`; an accept precedes it iff `a` was not in the index, and afterwards the index maps `a` to that session. -/
-theorem T2_one_datagram (cfg : Cfg) (hchunk : maxDatagram ≤ cfg.ioReadChunk) (h : List In) (lid : Nat) (a : Nat) (dg : Bytes)
-    (hne : dg ≠ []) (hlen : dg.length ≤ maxDatagram) (hadm : Admitted cfg (run cfg h).1 a) :
+theorem T2_one_datagram (cfg : Cfg) (hK : KeyInjective cfg.key) (hchunk : maxDatagram ≤ cfg.ioReadChunk) (h : List In) (lid : Nat) (a : Nat)
+    (dg : Bytes) (hne : dg ≠ []) (hlen : dg.length ≤ maxDatagram) (hadm : Admitted cfg (run cfg h).1 a) :
     ∃ (sid : Nat) (s : Sess), (recvOne cfg lid (run cfg h).1 (a, dg)).1.sessions sid = some s ∧ s.peer = a ∧ s.role = .serverPeer ∧
-      (recvOne cfg lid (run cfg h).1 (a, dg)).1.peerIndex a = some sid ∧
-      (((run cfg h).1.peerIndex a = some sid ∧ (recvOne cfg lid (run cfg h).1 (a, dg)).2 = [.data sid dg]) ∨
-       ((run cfg h).1.peerIndex a = none ∧ sid = (run cfg h).1.nextSid ∧
+      (recvOne cfg lid (run cfg h).1 (a, dg)).1.peerIndex (cfg.key a) = some sid ∧
+      (((run cfg h).1.peerIndex (cfg.key a) = some sid ∧ (recvOne cfg lid (run cfg h).1 (a, dg)).2 = [.data sid dg]) ∨
+       ((run cfg h).1.peerIndex (cfg.key a) = none ∧ sid = (run cfg h).1.nextSid ∧
         (recvOne cfg lid (run cfg h).1 (a, dg)).2 = [.accept sid a, .data sid dg])) :=
-  recvOne_spec cfg lid _ a dg (run_inv cfg h) hne (Nat.le_trans hlen hchunk) hadm
+  recvOne_spec cfg hK lid _ a dg (run_inv cfg h) hne (Nat.le_trans hlen hchunk) hadm
+
+/-- **T2 (a failing `key()`).** A datagram for which `key()` itself fails (getnameinfo error → empty key) is reported and dropped, a
+connect-via-listener to such a target is refused: nothing is ever indexed under the empty key, no session is created, the state of
+every other peer is untouched (the FC06a repair; before it, all such peers shared ONE index entry). -/
+theorem T2_key_failure_isolated (cfg : Cfg) (tok : Nat) (st : State) (lid n : Nat) :
+    (step cfg tok st (.recvKeyFail lid n)).1 = st ∧ (∀ o ∈ (step cfg tok st (.recvKeyFail lid n)).2, o = Out.error) ∧
+    (step cfg tok st (.viaKeyFail lid)).1 = { st with nextSid := st.nextSid + 1 } ∧
+    (step cfg tok st (.viaKeyFail lid)).2 = [.closed st.nextSid .config] := by
+  refine ⟨?_, ?_, rfl, rfl⟩
+  · simp only [step]; split
+    · rfl
+    · split <;> rfl
+  · intro o ho
+    simp only [step] at ho
+    split at ho
+    · cases ho
+    · split at ho
+      · exact (List.mem_replicate.mp ho).2
+      · cases ho
 
 /-- **T2 (what "admitted" means).** After ANY history the counter the cap is tested against IS the number of open sessions; so the
 only datagram that produces no event is one from an UNKNOWN peer arriving while a CONFIGURED cap (`maxSessions ≠ 0`, not the
@@ -263,12 +312,12 @@ example (st : State) (a : Nat) : Admitted defaultCfg st a := Or.inl (by simp [ca
 
 /-- **T2 (a whole `recvfrom` loop, default = no cap).** One `EPOLLIN` that returns any list of datagrams from any senders: the data
 events are exactly those datagrams — same number, same order, same bytes — each on a session whose peer is its sender. -/
-theorem T2_burst (cfg : Cfg) (hcap : cfg.maxSessions = 0) (hchunk : maxDatagram ≤ cfg.ioReadChunk) (h : List In) (lid : Nat)
+theorem T2_burst (cfg : Cfg) (hK : KeyInjective cfg.key) (hcap : cfg.maxSessions = 0) (hchunk : maxDatagram ≤ cfg.ioReadChunk) (h : List In) (lid : Nat)
     (ds : List (Nat × Bytes)) (hv : ∀ d ∈ ds, d.2 ≠ [] ∧ d.2.length ≤ maxDatagram) :
     Pairwise2 (fun (d : Nat × Bytes) (e : Nat × Bytes) => e.2 = d.2 ∧
         ∃ s, (recvMany cfg lid (run cfg h).1 ds).1.sessions e.1 = some s ∧ s.peer = d.1 ∧ s.role = .serverPeer)
       ds (dataOf (recvMany cfg lid (run cfg h).1 ds).2) :=
-  recvMany_spec cfg lid hcap ds _ (run_inv cfg h) (fun d hd => ⟨(hv d hd).1, Nat.le_trans (hv d hd).2 hchunk⟩)
+  recvMany_spec cfg hK lid hcap ds _ (run_inv cfg h) (fun d hd => ⟨(hv d hd).1, Nat.le_trans (hv d hd).2 hchunk⟩)
 
 /-- **T2 (client socket).** Datagrams read from a connected client socket come out as one data event each, on that session, whole. -/
 theorem T2_client (cfg : Cfg) (hchunk : maxDatagram ≤ cfg.ioReadChunk) (st : State) (sid : Nat) (ds : List Bytes)
@@ -313,41 +362,43 @@ example : (run defaultCfg [.listen false, .recvFrom 1 [(7, [1])], .cmdSend 1 [9]
 
 /-- **T3 (next datagram).** If the index maps `a` to `sid` (i.e. `sid` receives `a`'s datagrams — by T2 it is open), the next
 datagram from `a`, on ANY listener, is delivered on `sid` with no accept, and the mapping stays. -/
-theorem T3_next_datagram (cfg : Cfg) (hchunk : maxDatagram ≤ cfg.ioReadChunk) (h : List In) (lid a sid : Nat) (dg : Bytes)
-    (hne : dg ≠ []) (hlen : dg.length ≤ maxDatagram) (hix : (run cfg h).1.peerIndex a = some sid) :
-    (recvOne cfg lid (run cfg h).1 (a, dg)).2 = [.data sid dg] ∧ (recvOne cfg lid (run cfg h).1 (a, dg)).1.peerIndex a = some sid := by
-  obtain ⟨sid', s, _, _, _, hpost, hout⟩ := recvOne_spec cfg lid _ a dg (run_inv cfg h) hne (Nat.le_trans hlen hchunk)
+theorem T3_next_datagram (cfg : Cfg) (hK : KeyInjective cfg.key) (hchunk : maxDatagram ≤ cfg.ioReadChunk) (h : List In) (lid a sid : Nat)
+    (dg : Bytes) (hne : dg ≠ []) (hlen : dg.length ≤ maxDatagram) (hix : (run cfg h).1.peerIndex (cfg.key a) = some sid) :
+    (recvOne cfg lid (run cfg h).1 (a, dg)).2 = [.data sid dg] ∧
+      (recvOne cfg lid (run cfg h).1 (a, dg)).1.peerIndex (cfg.key a) = some sid := by
+  obtain ⟨sid', s, _, _, _, hpost, hout⟩ := recvOne_spec cfg hK lid _ a dg (run_inv cfg h) hne (Nat.le_trans hlen hchunk)
     (Or.inr (by simp [hix]))
   rcases hout with ⟨h1, h2⟩ | ⟨h1, _, _⟩
   · rw [hix] at h1; cases h1; exact ⟨h2, hpost⟩
   · rw [hix] at h1; cases h1
 
 /-- **T3 (one step).** After ANY history, whatever the I/O thread does next — in particular closing ANY other session, also one
-with the same peer address — the mapping `a ↦ sid` survives, unless that very step closes `sid` (and then it reports `closed sid`). -/
-theorem T3_step (cfg : Cfg) (hg : cfg.eraseGuarded = true) (h : List In) (i : In) (a sid : Nat)
-    (hix : (run cfg h).1.peerIndex a = some sid) :
-    (step cfg h.length (run cfg h).1 i).1.peerIndex a = some sid ∨ ∃ w, Out.closed sid w ∈ (step cfg h.length (run cfg h).1 i).2 :=
-  step_stable cfg hg _ _ i a sid (run_inv cfg h) hix
+with the same peer address — the mapping `k ↦ sid` (`k` = the key of a peer address) survives, unless that very step closes `sid`
+(and then it reports `closed sid`). -/
+theorem T3_step (cfg : Cfg) (hg : cfg.eraseGuarded = true) (h : List In) (i : In) (k sid : Nat)
+    (hix : (run cfg h).1.peerIndex k = some sid) :
+    (step cfg h.length (run cfg h).1 i).1.peerIndex k = some sid ∨ ∃ w, Out.closed sid w ∈ (step cfg h.length (run cfg h).1 i).2 :=
+  step_stable cfg hg _ _ i k sid (run_inv cfg h) hix
 
 /-- **T3 (histories).** After ANY history `h` with `a ↦ sid`, along ANY continuation `h'` during which `sid` is not closed (by the
 application, by idle/age expiry, by a send error or back-pressure): the mapping is still `a ↦ sid` at the end — hence, by
 `T3_next_datagram`, at every intermediate point every datagram from `a` lands on `sid` — and no session is accepted for `a`. -/
 theorem T3_history (cfg : Cfg) (hg : cfg.eraseGuarded = true) (h h' : List In) (a sid : Nat)
-    (hix : (run cfg h).1.peerIndex a = some sid) (hopen : ∀ w, Out.closed sid w ∉ (runFrom cfg h.length (run cfg h).1 h').2) :
-    (runFrom cfg h.length (run cfg h).1 h').1.peerIndex a = some sid ∧
+    (hix : (run cfg h).1.peerIndex (cfg.key a) = some sid) (hopen : ∀ w, Out.closed sid w ∉ (runFrom cfg h.length (run cfg h).1 h').2) :
+    (runFrom cfg h.length (run cfg h).1 h').1.peerIndex (cfg.key a) = some sid ∧
       ∀ s', Out.accept s' a ∉ (runFrom cfg h.length (run cfg h).1 h').2 :=
   runFrom_stable cfg hg a sid h' _ _ (run_inv cfg h) hix hopen
 
 /-- **T3 (trace form).** After ANY history `h` with `a ↦ sid`, and ANY continuation `h'` that does not close `sid`: in a `recvfrom`
 loop that then returns the datagrams `pre ++ d :: post` (any senders, any sizes), the datagram `d` from `a` — at whatever position —
 produces exactly the one event `data sid d.bytes`, between the events of `pre` and those of `post`: on `sid`, whole, no accept. -/
-theorem T3_trace (cfg : Cfg) (hg : cfg.eraseGuarded = true) (hchunk : maxDatagram ≤ cfg.ioReadChunk) (h h' : List In) (a sid : Nat)
-    (hix : (run cfg h).1.peerIndex a = some sid) (hopen : ∀ w, Out.closed sid w ∉ (runFrom cfg h.length (run cfg h).1 h').2)
+theorem T3_trace (cfg : Cfg) (hK : KeyInjective cfg.key) (hg : cfg.eraseGuarded = true) (hchunk : maxDatagram ≤ cfg.ioReadChunk)
+    (h h' : List In) (a sid : Nat) (hix : (run cfg h).1.peerIndex (cfg.key a) = some sid) (hopen : ∀ w, Out.closed sid w ∉ (runFrom cfg h.length (run cfg h).1 h').2)
     (lid : Nat) (pre post : List (Nat × Bytes)) (d : Nat × Bytes) (hd : d.1 = a) (hne : d.2 ≠ []) (hlen : d.2.length ≤ maxDatagram) :
     (recvMany cfg lid (runFrom cfg h.length (run cfg h).1 h').1 (pre ++ d :: post)).2 =
       (recvMany cfg lid (runFrom cfg h.length (run cfg h).1 h').1 pre).2 ++ [.data sid d.2] ++
       (recvMany cfg lid (recvOne cfg lid (recvMany cfg lid (runFrom cfg h.length (run cfg h).1 h').1 pre).1 d).1 post).2 :=
-  (recvMany_trace cfg lid _ (runFrom_inv cfg h' _ _ (run_inv cfg h)) a sid
+  (recvMany_trace cfg hK lid _ (runFrom_inv cfg h' _ _ (run_inv cfg h)) a sid
     (runFrom_stable cfg hg a sid h' _ _ (run_inv cfg h) hix hopen).1 pre post d hd hne (Nat.le_trans hlen hchunk)).2
 
 /-- **T3 (every session stays).** After ANY history, whatever the I/O thread does next, an open session — a client-socket session
